@@ -140,6 +140,8 @@ def work(item):
         else:
             isa = plain["isa"].lower()
             sem = drive.ArchSemantics(mm)
+            from osaca.frontend import Frontend
+            fe = Frontend(path_to_yaml=path)
         bad_idx = {j for _, _, j in bad}
         for j, e in enumerate(entries):
             pats = e.get("operands") or []
@@ -164,11 +166,16 @@ def work(item):
                     for k in kernel:
                         sem.get_reg_changes(k)
                 else:
-                    sem.add_semantics(kernel)
-                    sem.assign_optimal_throughput(kernel)
-                    sem.assign_optimal_throughput(kernel)
-                    g = drive.KernelDG(kernel, parser, mm, sem)
-                    g.get_critical_path()
+                    for fixed in (True, False):
+                        kernel = parser.parse_file(text + "\n")
+                        sem.add_semantics(kernel)
+                        if not fixed:
+                            sem.assign_optimal_throughput(kernel)
+                            sem.assign_optimal_throughput(kernel)
+                        g = drive.KernelDG(kernel, parser, mm, sem)
+                        g.get_critical_path()
+                        fe.full_analysis(kernel, g, ignore_unknown=True)
+                        fe.full_analysis_dict(kernel, g)
                 out["costed"] += 1
                 out["n"] += 1
                 if out["sample"] is None:
